@@ -82,7 +82,7 @@ def lattice(tier):
     for i in range(13):
         for d in digits:
             seeds.add(d * pw[i])
-    step = 1 if tier != 'quick' else 6
+    step = 1 if tier != 'quick' else 2
     dd = [d for d in digits if (d - 1) % step == 0 or d == 61]
     for i in range(13):
         for j in range(i + 1, 13):
@@ -115,8 +115,12 @@ class _FakeOs:
         return self.table[path]
 
 
-# two ways of producing the same seed: which instance id / inode / ctime
-DECOMP = [('inst=1', 1, 1537800000), ('inst=9999999999', 9999999999, 1)]
+# two ways of producing the same seed: which instance id / inode / ctime.
+# The ctime bases have the bits just above the 13 kept ones SET, so that a
+# mask wider than 77 bits (or a different shift) cannot go unnoticed.
+DECOMP = [('inst=1,ctime=2018+bits13..24', 1,
+           ((1537800000 * 10 ** 6) | (0xFFF << 13)) & ~0x1FFF),
+          ('inst=9999999999,ctime=bit13', 9999999999, 1 << 13)]
 BASE_ALPHABETS = [('default36', None, None), ('alnum62', 62, ALPHA62),
                   ('hex-of-default', 16, None)]
 
@@ -136,7 +140,7 @@ class Uid:
         return {'uid': [('seed', 'lattice: 13-digit base-62 values with <= 2 '
                          'non-zero digits%s; all values < 62**%d; 2**k and '
                          '2**k+-1 for k <= 77; all <= 2**77-1'
-                         % (' (digit menu 1,7,13,..,61)' if tier == 'quick'
+                         % (' (digit menu 1,3,5,..,61)' if tier == 'quick'
                             else '', 2 if tier == 'quick' else 3)),
                         ('decomposition (instance id, ctime base)',
                          [d[0] for d in DECOMP])],
@@ -165,7 +169,7 @@ class Uid:
         viol = []
         evals = 0
         uids = []
-        for _label, inst, base_s in DECOMP:
+        for _label, inst, base_us in DECOMP:
             # choose (ctime, ino, instance) that the documented recipe maps to
             # `seed`: low 64 bits = ino ^ (instance << 31), high 13 bits = the
             # low 13 bits of ctime in microseconds.
@@ -173,7 +177,7 @@ class Uid:
             high = seed >> 64
             ino = low ^ ((inst << 31) & (2 ** 64 - 1))
             # a float ctime whose microsecond count has the wanted low bits
-            us = (base_s * 10 ** 6 // 8192) * 8192 + high
+            us = base_us + high
             ctime = us / 10 ** 6
             if int(ctime * 10 ** 6) != us:       # float rounding: next try
                 ctime = (us + 0.5) / 10 ** 6
